@@ -84,7 +84,13 @@ type zzTrace struct {
 }
 
 func (w *zzRspWorld) trace() zzTrace {
-	t := zzTrace{nsess: len(w.s.lnode.sess), nfree: len(w.s.lnode.free), nnodes: len(w.s.rnodes), ncalls: len(w.dp.calls)}
+	// sessions = live sessions (a slot that was allocated and correctly given back is no trace)
+	t := zzTrace{nnodes: len(w.s.rnodes), ncalls: len(w.dp.calls)}
+	for _, x := range w.s.lnode.sess {
+		if x != nil {
+			t.nsess++
+		}
+	}
 	for i := range w.dp.rules {
 		if w.dp.rules[i].state != zzAbsent {
 			t.nrules++
@@ -97,7 +103,7 @@ func (w *zzRspWorld) trace() zzTrace {
 }
 
 func (w *zzRspWorld) noTrace(t zzTrace, tag string) {
-	zzAssert("C08.no-trace.sessions."+tag, len(w.s.lnode.sess) == t.nsess && len(w.s.lnode.free) == t.nfree)
+	zzAssert("C08.no-trace.sessions."+tag, w.trace().nsess == t.nsess)
 	zzAssert("C08.no-trace.nodes."+tag, len(w.s.rnodes) == t.nnodes)
 	zzAssert("C08.no-trace.ownership."+tag, w.trace().nowned == t.nowned)
 	zzAssert("C08.no-trace.dataplane."+tag, len(w.dp.calls) == t.ncalls)
